@@ -110,7 +110,8 @@ def setup(rec, reach):
     core.wrap(B, "dot_bracket", rec, post=_post("dot_bracket"), pre=_pre_self, label="BpSeq.dot_bracket")
     core.wrap(B, "convert_to_dot_bracket", rec, post=_post("convert_to_dot_bracket"), pre=_pre_self, label="BpSeq.convert_to_dot_bracket")
     for name in ("dot_bracket", "convert_to_dot_bracket", "_BpSeq__make_dot_bracket", "_BpSeq__regions"):
-        reach.add(B.__dict__[name], f"BpSeq.{name.replace('_BpSeq', '')}")
+        if name in B.__dict__:  # private helpers may be refactored away: the reach map then simply has no entry for them
+            reach.add(B.__dict__[name], f"BpSeq.{name.replace('_BpSeq', '')}")
 
 
 def knotted_random(rng, big=False):
